@@ -263,6 +263,7 @@ func inlineFunc(fn *ssa.Function, parent *ssa.Function, policy InlinePolicy) *In
 	nf.Blocks = b.blocks
 	prune(nf)
 	for i := 0; i < 8; i++ {
+		dropDeadClosures(nf)
 		forwardStores(nf)
 		t := thread(nf)
 		prune(nf)
@@ -1677,6 +1678,40 @@ func simplifyPhis(fn *ssa.Function, keep map[ssa.Instruction]bool) {
 	_ = keep
 }
 
+// dropDeadClosures removes MakeClosure instructions nothing refers to any more (the closure was handed to a helper that
+// was expanded in place together with the closure's body): the variables it captured become private cells again.
+func dropDeadClosures(fn *ssa.Function) {
+	used := map[ssa.Value]bool{}
+	for _, b := range fn.Blocks {
+		for _, in := range b.Instrs {
+			if _, isDbg := in.(*ssa.DebugRef); isDbg {
+				continue
+			}
+			var buf [8]*ssa.Value
+			for _, op := range in.Operands(buf[:0]) {
+				if *op != nil {
+					used[*op] = true
+				}
+			}
+		}
+	}
+	for _, b := range fn.Blocks {
+		var keep []ssa.Instruction
+		for _, in := range b.Instrs {
+			if mc, ok := in.(*ssa.MakeClosure); ok && !used[mc] {
+				continue
+			}
+			if dr, ok := in.(*ssa.DebugRef); ok {
+				if mc, isMC := dr.X.(*ssa.MakeClosure); isMC && !used[mc] {
+					continue
+				}
+			}
+			keep = append(keep, in)
+		}
+		b.Instrs = keep
+	}
+}
+
 // forwardStores replaces a load of a private local cell by the value stored to it earlier in the same block
 // (`*err = r; t = *err; if t != nil` — a named result spilled because of a defer): the test of an expanded call's
 // result can then be threaded like a direct one. A cell is private when it is only stored to and loaded from.
@@ -1741,6 +1776,54 @@ func forwardStores(fn *ssa.Function) bool {
 			keep = append(keep, in)
 		}
 		b.Instrs = keep
+	}
+	// a private cell written exactly once, in the entry block before anything can read it (a captured parameter or local
+	// spilled for a closure that has since been expanded): every load of it, in whatever block, is the stored value
+	{
+		stores := map[*ssa.Alloc][]*ssa.Store{}
+		for _, b := range fn.Blocks {
+			for _, in := range b.Instrs {
+				if st, ok := in.(*ssa.Store); ok {
+					if a, ok := st.Addr.(*ssa.Alloc); ok && private[a] {
+						stores[a] = append(stores[a], st)
+					}
+				}
+			}
+		}
+		for a, sts := range stores {
+			if len(sts) != 1 || len(fn.Blocks) == 0 || sts[0].Block() != fn.Blocks[0] || a.Block() != fn.Blocks[0] {
+				continue
+			}
+			// no load of the cell precedes the store in the entry block
+			early := false
+			for _, in := range fn.Blocks[0].Instrs {
+				if in == ssa.Instruction(sts[0]) {
+					break
+				}
+				if ld, ok := in.(*ssa.UnOp); ok && ld.Op == token.MUL && ld.X == ssa.Value(a) {
+					early = true
+				}
+			}
+			if early {
+				continue
+			}
+			v := sts[0].Val
+			if r, ok := repl[v]; ok {
+				v = r
+			}
+			for _, b := range fn.Blocks {
+				var keep []ssa.Instruction
+				for _, in := range b.Instrs {
+					if ld, ok := in.(*ssa.UnOp); ok && ld.Op == token.MUL && ld.X == ssa.Value(a) {
+						repl[ld] = v
+						any = true
+						continue
+					}
+					keep = append(keep, in)
+				}
+				b.Instrs = keep
+			}
+		}
 	}
 	if !any {
 		return false
